@@ -48,6 +48,9 @@ def worlds(tier):
     for r in K.REPRS if hasattr(K, 'REPRS') else ('Rust', 'Glam', 'Nalgebra'):
         ws.append((zoo, dict(zip(K.OPTION_FIELDS, [False] * 4)), r, True))
     ws.append((zoo, dict(zip(K.OPTION_FIELDS, [False, False, False, True])), 'Glam', True))
+    for kind_ in ('optional', 'required'):
+        ow = K.build_world_overrides(kind_)
+        ws.append((ow, dict(zip(K.OPTION_FIELDS, [False] * 4)), 'Rust', True))
     vp = K.build_world_vertex_plain()
     ws.append((vp, dict(zip(K.OPTION_FIELDS, [False] * 4)), 'Rust', True))
     ws.append((vp, dict(zip(K.OPTION_FIELDS, [False, False, False, True])), 'Glam', True))
